@@ -207,3 +207,18 @@ Theorem daynum_refuted : exists c, g_no_daynum c = false /\ g_three_parts c = tr
   tres_agree (spec_translate (t_datecol c) (t_ids c) (t_times c) (t_dates c)) (Ok [CNum 0; CNum (36#1); CNum 0]) = true.
 Proof. exists w_daynum. repeat split; vm_compute; reflexivity. Qed.
 
+
+
+(* the truncating split: 12:10 = 12.166666666666666 h is stored as 12:09:59.999999999, and 12:00 -> 12:10 on the same
+   day is translated to 0.16666666666638888 h, which is not the double nearest to 1/6 (it is 1250 ulp away) *)
+Definition w_split : tcase :=
+  tw (Some s_DATE) [(1#1, s_of [49;50;58;48;48], s_of [49;47;49;47;50;48;50;48]); (1#1, s_of [49;50;58;49;48], s_of [49;47;49;47;50;48;50;48])].
+Theorem split_truncation_refuted :
+  exists c : tcase,
+    g_split_exact c = false /\ g_three_parts c = true /\ g_has_date c = true /\ g_no_daynum c = true /\
+    exists h, translate_model (t_datecol c) (t_ids c) (t_times c) (t_dates c) = Ok [CNum 0; CNum h] /\
+              Qeq_bool h (round_double (1 # 6)) = false /\ near_ulp (1 # 6) h = false /\ near (1 # 6) h = true.
+Proof.
+  exists w_split. repeat split; try (vm_compute; reflexivity).
+  exists (6004799503150653 # 36028797018963968). repeat split; vm_compute; reflexivity.
+Qed.
